@@ -44,7 +44,11 @@ let history ns flags ops =
   Buffer.add_string b "H";
   let bad = ref false in
   List.iter (fun tok ->
-    if not !bad then begin
+    if not !bad && String.length tok > 2 && tok.[0] = 'B' then
+      (match split_on ':' tok with
+       | ["B"; sv] -> w := restart !w (nat_of_int (int_of_string sv))
+       | _ -> bad := true)
+    else if not !bad then begin
       let o = parse_op tok in
       let w0 = !w in
       let (x, w1) = step w0 o in
@@ -71,6 +75,7 @@ let reply rh rp = match hdr_parse (bytes_of_hex rh) with Some h -> (h, bytes_of_
 
 let () = main_loop (function
   | "H" :: ns :: flags :: ops -> history ns flags ops
+  | "M" :: _ -> "M"   (* concurrent run: checked by the property oracle only *)
   | ["P"; "F"; k; g; tags; tif; rh; rp] ->
       let tags = tags = "1" and tif = tif = "1" in
       let (h, p) = reply rh rp in
